@@ -45,6 +45,7 @@ pub fn sweep(rep: &mut Report, flags: Flags, part_name: &str, filter: &dyn Fn(&s
         .bound("menu_words", sc.menu.len() as u64)
         .bound("deviation_position_stride", sc.stride as u64)
         .bound("base_seeds", sc.seeds.len() as u64)
+        .bound("parallel_evaluator_pass_position_stride", if flags.c05 || flags.c06 { 5 } else { 0 })
         .bound("second_pass_two_deviations_among_first_draws", sc.pairs.as_ref().map(|p| p.0 as u64).unwrap_or(0));
     let templates: HashSet<&'static str> = specs.iter().map(|s| s.template()).collect();
     part.bound("templates", templates.len() as u64);
@@ -104,6 +105,30 @@ pub fn sweep(rep: &mut Report, flags: Flags, part_name: &str, filter: &dyn Fn(&s
                     });
                 }
             }
+            // third pass: the same runs with mahf's Parallel evaluator on a dedicated pool of 8 threads
+            // (free running), deviations at every 5th draw position
+            if (flags.c05 || flags.c06) && *seed == sc.seeds[0] {
+                let mut cfg3 = tape_cfg(&sc, &spec.name(), *seed, *i);
+                cfg3.stride = 5;
+                cfg3.offset = *i % 5;
+                let body3 = || spec.run(flags, &EvKind::Parallel(8));
+                tape::explore_par(&cfg3, &body3, &|prefix, out, _log| {
+                    let mut sub = sub.lock().unwrap();
+                    sub.traces += 1;
+                    match out {
+                        Outcome::Done(o) => {
+                            sub.transitions += o.steps;
+                            digests.lock().unwrap().insert(fnv(&o.digest));
+                            for (sig, d) in &o.violations {
+                                sub.violate(sig.clone(), d.clone(), json!({"spec": spec.name(), "tape": prefix, "seed": seed, "menu": sc.menu.len(), "flags": flags_json(flags), "iters": sc.iters, "thorough": sc.thorough, "parallel": 8}));
+                            }
+                        }
+                        Outcome::Panic(m) => sub.machinery(format!("harness panic outside the subject in {}: {}", spec.name(), m.chars().take(200).collect::<String>())),
+                        Outcome::Truncated => sub.truncated += 1,
+                        Outcome::Diverged(m) => sub.machinery(format!("tape divergence in {}: {}", spec.name(), m)),
+                    }
+                });
+            }
             let mut sub = sub.into_inner().unwrap();
             sub.states = digests.into_inner().unwrap().len() as u64;
             sub.bounds.insert("max_choices".into(), json!(st.max_choices));
@@ -141,7 +166,11 @@ pub fn replay(case: &Value) -> Result<Vec<(String, String)>, String> {
     let spec = specs.iter().find(|s| s.name() == name).ok_or("spec not found")?;
     let mut cfg = Cfg::deviations(&menu, 8, seed ^ fnv(name));
     cfg.draw_cap = 20_000;
-    let (out, _) = tape::run_once(&cfg, &tape, || spec.run(flags, &EvKind::Sequential));
+    let ev = match case["parallel"].as_u64() {
+        Some(k) => EvKind::Parallel(k as usize),
+        None => EvKind::Sequential,
+    };
+    let (out, _) = tape::run_once(&cfg, &tape, || spec.run(flags, &ev));
     match out {
         Outcome::Done(o) => Ok(o.violations),
         Outcome::Panic(m) => Err(format!("harness panic: {}", m)),
